@@ -23,7 +23,7 @@ STUB = ["event driver standing in for producer and consumers"]
 ASSUMPTIONS = [
     "every consumer's request times are non-decreasing (a refused out-of-range request does not count)",
     "a push-based adapter counts as a consumer that pulled at the newest notification",
-    "thorough tier adds long histories (up to 5000 events)",
+    "thorough tier adds long histories (up to 2000 events)",
 ]
 
 
@@ -63,7 +63,7 @@ def generate(tape, tier="quick"):
         cons.append(spec)
     n_events = tape.weighted([(12, 4), (25, 4), (45, 2), (60, 1)])
     if tier == "thorough" and tape.chance(1, 400):
-        n_events = tape.choice([500, 2000, 5000])
+        n_events = tape.choice([500, 1000, 2000])
     events = gen_events(tape, n_cons, n_events)
     src = {"units": ""}
     if tape.chance(1, 5):
